@@ -36,6 +36,50 @@ Section SP.
     unfold bary_s, bary_t, tri_det in *. cbn [fst snd] in *. field. exact Hd.
   Qed.
 
+  (** completeness of the point-in-triangle test over exact reals: every point of a closed, positively oriented triangle is
+      accepted (the tolerances are non-negative; the vertices are in the order the triangulation delivers them,
+      clockwise in the surface coordinates: tri_det < 0), so a lookup inside the triangulated footprint never ends in
+      "not in any triangle" for want of a tolerance *)
+  Theorem in_triangle_complete (t : @tri R) (p : R * R) :
+    tri_det t < 0 -> 0 <= bary_s t p -> 0 <= bary_t t p -> bary_s t p + bary_t t p <= 1 ->
+    exists v, @in_triangle R N t p = Some v.
+  Proof.
+    destruct t as [[[[x0 y0] v0] [[x1 y1] v1]] [[x2 y2] v2]]. destruct p as [px py].
+    unfold bary_s, bary_t. unfold tri_det. cbn [fst snd]. intros Hd Hs Ht Hst.
+    set (D := (x1 - x0) * (y2 - y0) - (x2 - x0) * (y1 - y0)) in *.
+    set (S := (px - x0) * (y2 - y0) - (x2 - x0) * (py - y0)) in *.
+    set (T := (x1 - x0) * (py - y0) - (px - x0) * (y1 - y0)) in *.
+    assert (ID : / D < 0) by (apply Rinv_lt_0_compat; exact Hd).
+    assert (HS : S <= 0). { unfold Rdiv in Hs. destruct (Rle_lt_dec S 0) as [L|L]; [exact L|]. exfalso. assert (0 < - (S * / D)) by (replace (- (S * / D)) with (S * - / D) by ring; apply Rmult_lt_0_compat; lra). lra. }
+    assert (HT : T <= 0). { unfold Rdiv in Ht. destruct (Rle_lt_dec T 0) as [L|L]; [exact L|]. exfalso. assert (0 < - (T * / D)) by (replace (- (T * / D)) with (T * - / D) by ring; apply Rmult_lt_0_compat; lra). lra. }
+    assert (HST : D <= S + T).
+    { assert (X : (S + T) * / D <= 1) by (replace ((S + T) * / D) with (S / D + T / D) by (unfold Rdiv; ring); exact Hst).
+      assert (Y : D * / D = 1) by (apply Rinv_r; lra).
+      destruct (Rle_lt_dec D (S + T)) as [L|L]; [exact L|]. exfalso.
+      assert (0 < (S + T) * / D - D * / D) by (replace ((S + T) * / D - D * / D) with ((D - (S + T)) * - / D) by ring; apply Rmult_lt_0_compat; lra). lra. }
+    unfold in_triangle, tri_pre. cbn [nth fst snd].
+    change (@fsub R N) with Rminus. change (@fmul R N) with Rmult. change (@fadd R N) with Rplus.
+    change (@fdiv R N) with Rdiv. change (@fopp R N) with Ropp. change (@f1 R N) with 1.
+    change (@fabs R N) with Rabs. change (@fle R N) with Rleb.
+    set (rel := @fdec R N 1 4 * @feps R N).
+    assert (Hrel : 0 <= rel).
+    { unfold rel. change (@fdec R N 1 4) with (IZR 1 * powerRZ 10 4). change (@feps R N) with (powerRZ 2 (-52)).
+      apply Rmult_le_pos; [rewrite Rmult_1_l; left; apply powerRZ_lt; lra | left; apply powerRZ_lt; lra]. }
+    set (P6 := - (- y1 * x2 + y0 * (- x1 + x2) + x0 * (y1 - y2) + x1 * y2)).
+    assert (ED : P6 = - D) by (unfold P6, D; ring).
+    match goal with |- context [Rleb (- ?a) ?b && Rleb (- ?c) ?d && _] =>
+      set (tolS := a); set (sna := b); set (tolT := c); set (tna := d) end.
+    assert (TS : 0 <= tolS) by (unfold tolS; apply Rmult_le_pos; [exact Hrel|]; repeat apply Rplus_le_le_0_compat; apply Rabs_pos).
+    assert (TT : 0 <= tolT) by (unfold tolT; apply Rmult_le_pos; [exact Hrel|]; repeat apply Rplus_le_le_0_compat; apply Rabs_pos).
+    assert (E1 : sna = - S) by (unfold sna, S; ring).
+    assert (E2 : tna = - T) by (unfold tna, T; ring).
+    assert (DR : 0 <= P6 * rel) by (rewrite ED; apply Rmult_le_pos; lra).
+    destruct (Rleb_spec (- tolS) sna) as [A|A]; [|exfalso; apply A; lra].
+    destruct (Rleb_spec (- tolT) tna) as [B|B]; [|exfalso; apply B; lra].
+    destruct (Rleb_spec (sna + tna - P6) (tolS + tolT + P6 * rel)) as [C|C]; [|exfalso; apply C; lra].
+    cbn [andb]. eexists. reflexivity.
+  Qed.
+
   (** bounded: inside the triangle the value lies between the smallest and largest nodal value *)
   Theorem interpolation_bounded v0 v1 v2 s t lo hi :
     0 <= s -> 0 <= t -> s + t <= 1 ->
